@@ -83,7 +83,13 @@ console.warn = () => {}; // wasm_exec.js warns once per spin when it has lost a 
     await pause(5300);
     await again();
   }
+  // heartbeat for the watchdog: the number of cases done, rewritten every 200 cases (the watchdog judges a stall by
+  // this number standing still, never by the length of the whole run)
+  let done = 0;
+  const beat = () => { try { fs.writeFileSync(outPath + ".progress", String(done)); } catch (e) { /* ignore */ } };
+  beat();
   for (const c of cases) {
+    if (++done % 200 === 0) beat();
     if (reinit && ++n % 997 === 0) await again();
     const args = (c.args || []).map(toArg);
     const g = call(globalThis[c.fn], args);
